@@ -91,6 +91,16 @@ func (ex *Exec) tryIntrinsic(st *State, fn *ssa.Function, args []Value, depth in
 		}
 		return []Outcome{{St: st, Kind: ORet, Vals: vals}}, true
 	}
+	if ex.StubSets["bytearrays"] {
+		if name == interpPkg+"NewArrayValueWithIterator" {
+			ex.noteStub("stub:" + name)
+			return ex.callArrayWithIterator(st, args, depth), true
+		}
+		if f, ok := arrayStubs[name]; ok {
+			ex.noteStub("stub:" + name)
+			return ex.runIntrinsic(st, func(s *State) []Value { return f(ex, s, fn, args, depth) }), true
+		}
+	}
 	if f, ok := rangeStubs[name]; ok && ex.StubSets["range"] {
 		ex.noteStub("stub:" + name)
 		return ex.runIntrinsic(st, func(s *State) []Value { return f(ex, s, fn, args, depth) }), true
